@@ -494,7 +494,7 @@ class Run:
 
 def run(ctx):
     vtime.install()
-    n = 30 if ctx.quick else 800
+    n = 30 if ctx.quick else 160
     length = 25 if ctx.quick else 80
     for i in range(n):
         run_ = Run(ctx)
